@@ -38,6 +38,7 @@ KINDS = {
     "ADX": ("ADX", ("period", "period_signal")),
     "OBV": ("OBV", ()),
     "VWAP": ("VWAP", ("period",)),
+    "Amorph": ("Amorph", ()),
 }
 HAS_INPUT = {"SMA", "EMA", "RMA", "WMA", "HMA", "STDEV", "BBANDS", "KC", "STDEVTHRES", "Counter",
              "RSI", "MACD", "ROC", "STOCH", "TSI"}
@@ -46,7 +47,11 @@ AVERAGES = {"SMA", "EMA", "RMA", "WMA", "VWMA", "HMA"}
 C05_KINDS = {"TR", "ATR", "STDEV", "BBANDS", "KC", "DONCHIAN", "HL", "HLA", "Supertrend",
              "STDEVTHRES", "Counter"}
 C06_KINDS = {"RSI", "MACD", "ROC", "STOCH", "TSI", "AROON", "ADX", "OBV", "VWAP"}
-ALL_KINDS = list(KINDS)
+ALL_KINDS = [k for k in KINDS if k != "Amorph"]
+PATTERNS = ("doji", "dojistar", "hammer", "inv_hammer")
+MOVEMENTS = ("above", "below", "rising", "falling", "mean_rising", "mean_falling", "highest", "lowest",
+             "highestbar", "lowestbar", "value_range", "cross", "crossover", "crossunder", "positive",
+             "negative")
 
 
 def kind_property(kind):
@@ -56,6 +61,8 @@ def kind_property(kind):
         return "C05"
     if kind in C06_KINDS:
         return "C06"
+    if kind == "Amorph":
+        return "C16"
     return "C01"
 
 
@@ -76,7 +83,8 @@ class IndCfg:
 
     def __init__(self, kind, p=0, p2=0, p3=0, inp="close", mult=None, smoothing=None, rv=4,
                  count_value=True, timeframe=None, fill=False, lifespan=None, ctype=None, mg=1,
-                 extra=None):
+                 extra=None, fn="", inp2=""):
+        self.fn, self.inp2 = fn, inp2       # Amorph: analysis function name, second series
         self.kind, self.p, self.p2, self.p3 = kind, p, p2, p3
         self.inp, self.mult, self.smoothing, self.rv = inp, mult, smoothing, rv
         self.count_value = count_value
@@ -90,6 +98,8 @@ class IndCfg:
         for name, value in zip(pnames, (self.p, self.p2, self.p3)):
             if value:
                 kw[name] = value
+        if self.kind == "Amorph":
+            kw.update(self.analysis_args())
         if self.kind in HAS_INPUT:
             kw["input_value"] = self.inp
         if self.kind in HAS_MULT and self.mult is not None:
@@ -112,6 +122,19 @@ class IndCfg:
         kw.update(self.extra)
         return kw
 
+    def analysis_args(self):
+        """keyword arguments of the wrapped analysis function (Amorph)"""
+        fn = self.fn
+        if fn in PATTERNS:
+            return {"lookback": self.p} if self.p else {}
+        if fn in ("positive", "negative"):
+            return {}
+        if fn in ("cross", "crossover", "crossunder"):
+            return {"indicator_one": self.inp, "indicator_two": self.inp2, "length": self.p}
+        if fn in ("above", "below"):
+            return {"indicator": self.inp, "indicator_two": self.inp2}
+        return {"indicator": self.inp, "length": self.p}
+
     def build(self, candles=None, standalone=True):
         from hexital.indicators import INDICATOR_MAP
 
@@ -119,9 +142,19 @@ class IndCfg:
         kw = self.kwargs(standalone)
         if candles is not None:
             kw["candles"] = candles
+        if self.kind == "Amorph":
+            from hexital.analysis import MOVEMENT_MAP, PATTERN_MAP
+
+            kw["analysis"] = {**MOVEMENT_MAP, **PATTERN_MAP}[self.fn]
         return cls(**kw)
 
     def as_dict(self):
+        if self.kind == "Amorph":
+            # analysis arguments go under "args" ("indicator" at the top level names a class)
+            d = {"analysis": self.fn, "args": self.analysis_args()}
+            d.update({k: v for k, v in self.kwargs(standalone=False).items()
+                      if k not in self.analysis_args()})
+            return d
         d = {"indicator": KINDS[self.kind][0]}
         d.update(self.kwargs(standalone=False))
         return d
@@ -150,7 +183,9 @@ class IndCfg:
             "p": p,
             "p2": p2,
             "p3": p3,
-            "in": ref(self.inp if self.kind in HAS_INPUT else ""),
+            "in": ref(self.inp if (self.kind in HAS_INPUT or self.kind == "Amorph") else ""),
+            "fn": self.fn,
+            "in2": ref(self.inp2),
             "m": fr(mult),
             "cv": val(self.count_value),
         }
@@ -160,7 +195,7 @@ class IndCfg:
         return names.index(tf) + 1 if names and tf and tf in names else 1
 
     FIELDS = ("kind", "p", "p2", "p3", "inp", "mult", "smoothing", "rv", "count_value",
-              "timeframe", "fill", "ctype", "mg", "extra")
+              "timeframe", "fill", "ctype", "mg", "extra", "fn", "inp2")
 
     def clone(self, **over):
         kw = {f: getattr(self, f) for f in self.FIELDS}
